@@ -19,13 +19,13 @@ from pyvc.verify import Unit
 
 PROPERTY = 'C13'
 LEVEL = 'proof'
-FUNCTIONS = ['emd.cycles.is_good', 'emd.cycles.get_cycle_vector', 'emd.cycles.Cycles.__init__', 'emd.support.ensure_2d (inlined)', 'emd.support.ensure_equal_dims (inlined)']
+FUNCTIONS = ['emd.cycles.is_good', 'emd.cycles.get_cycle_vector', 'emd.cycles.Cycles.__init__', 'emd._cycles_support.make_slice_cache', 'emd.support.ensure_2d (inlined)', 'emd.support.ensure_equal_dims (inlined)']
 ASSUMPTIONS = C12.ASSUMPTIONS[:3] + [
     'single column in the unbounded proof; mask is a boolean vector of the same layout',
     'is_good is replaced by its contract at the call site in get_cycle_vector (and verified against it separately)',
     'Cycles.__init__ unit: get_cycle_vector, ensure_vector, the slice caches and compute_cycle_metric are contract stubs; compute_cycle_metric(name, vals, func) is taken to apply func to the samples of each cycle (C14 contract of get_cycle_stat_from_samples; the slice-cache route is in the bounded stand-in); at least one cycle',
 ]
-NOT_COVERED = ["the route from compute_cycle_metric to the stored flag vector (get_slice_stat_from_samples / slice cache): bounded stand-in only",
+NOT_COVERED = ["the route from compute_cycle_metric to the stored flag vector: the slice cache is proved to be the run decomposition of the label vector at its unit steps (consecutive non-empty slices covering [0, N), boundaries exactly at the steps); that slice k carries label k (a counting induction) and get_slice_stat_from_samples are bounded stand-in only",
                'waveform / control-point check (c3) and augmented mode: outside the property']
 
 N = z3.Int('N')
@@ -187,6 +187,7 @@ def units(tier):
         u.bound_scalars = [('N', 1)]
         U.append(u)
     U.append(container_unit())
+    U.append(slice_cache_unit())
     U += multi_units()
     return U
 
@@ -369,6 +370,49 @@ def is_good_default_stub(phase, waveform=None, ret_all_checks=False, phase_edge=
         import emd.cycles as EC
         phase_edge = real_defaults('emd/cycles.py', 'is_good', EC)['phase_edge']
     return is_good_stub(phase, waveform=waveform, ret_all_checks=ret_all_checks, phase_edge=phase_edge, mode=mode)
+
+
+# ----------------------------------------------------------------------------- the slice cache the container computes its flag through
+
+def _mk_slice_cache(c):
+    """an all-cycles label vector as the container hands it over: starts at cycle 0, every step is 0 or +1 (no unlabelled samples)"""
+    cv, CV = vec('cycle_vect', N, 'i')
+    s = z3.Int('cs')
+    c.assume(N >= 2)
+    c.assume(CV(0) == 0)
+    c.assume(z3.ForAll([s], z3.Implies(z3.And(0 <= s, s < N - 1), z3.Or(CV(s + 1) == CV(s), CV(s + 1) == CV(s) + 1)), patterns=[CV(s + 1)]))
+    c.ghost['CV'] = CV
+    return (cv,), {}
+
+
+def _post_slice_cache(c, a, kw, ret):
+    """the cache is the run decomposition of the label vector at its unit steps: consecutive, non-empty slices that cover [0, N) exactly,
+    a boundary exactly where the label steps up, no step inside a slice"""
+    CV = c.ghost['CV']
+    if not isinstance(ret, core.SymList):
+        c.oblige('post:one-slice-per-run', z3.BoolVal(False), 'post', note='result is not a list built over the run starts')
+        return
+    L = ret.n
+    k, s = z3.Ints('sk ss')
+    with core.SpecMode():
+        sl = ret.at(SInt(k))
+        sl1 = ret.at(SInt(k + 1))
+        first = ret.at(SInt(z3.IntVal(0)))
+        last = ret.at(SInt(L - 1))
+    st, sp = lift(sl.start), lift(sl.stop)
+    rng_k = z3.And(0 <= k, k < L)
+    c.oblige('post:at-least-one-slice', L >= 1, 'post')
+    c.oblige('post:first-slice-starts-at-sample-0', lift(first.start) == 0, 'post')
+    c.oblige('post:last-slice-stops-at-the-number-of-samples', lift(last.stop) == N, 'post')
+    c.oblige('post:slices-are-non-empty-and-in-range', z3.Implies(rng_k, z3.And(0 <= st, st < sp, sp <= N)), 'post')
+    c.oblige('post:slices-are-consecutive', z3.Implies(z3.And(0 <= k, k < L - 1), sp == lift(sl1.start)), 'post')
+    c.oblige('post:a-new-slice-starts-exactly-where-the-label-steps-up', z3.Implies(z3.And(0 <= k, k < L - 1), CV(sp) == CV(sp - 1) + 1), 'post')
+    c.oblige('post:no-label-step-inside-a-slice', z3.Implies(z3.And(rng_k, st <= s, s < sp - 1), CV(s + 1) == CV(s)), 'post')
+
+
+def slice_cache_unit():
+    import emd._cycles_support as CS
+    return Unit('make_slice_cache', 'emd/_cycles_support.py', 'make_slice_cache', _mk_slice_cache, _post_slice_cache, module=CS)
 
 
 def container_unit():
